@@ -490,9 +490,10 @@ pub fn run(args: &Args) -> Report {
         ks: if thorough { vec![0, 1, 2] } else { vec![0] },
         env: 0,
         fault: 0,
-        total_wall: Duration::from_secs(if thorough { 1500 } else { 40 }),
+        total_wall: Duration::from_secs(if thorough { 1500 } else { 50 }),
         max_execs_per_case: 20_000,
         required_witnesses: W_RESET_REPLY | W_OVERRUN | W_INVALID_ENDS | W_BYSTANDER_OK | W_COLLISION_REJECTED,
+        adaptive: thorough,
         witness_names: &[("reset_reply_to_unknown_flow", W_RESET_REPLY), ("overrun_reset", W_OVERRUN), ("invalid_frame_ends_connection", W_INVALID_ENDS), ("bystander_completed", W_BYSTANDER_OK), ("connect_collision_rejected", W_COLLISION_REJECTED)],
     };
     rep.rule = "real endpoint (binds on/off) + raw peer; from each of 9 slot states (incl. requests whose future was cancelled) of a victim flow, EVERY sequence up to length L over the frame alphabet (all opcodes x ids {0, victim, unknown} + frames on the live bystander id + window overrun) plus terminal invalid messages is delivered frame by frame with the endpoint run to quiescence in between; reply rules of PROTOCOL.md checked on the frames that reach the raw peer, bystander stream (data in flight before the attack) must complete intact, a fresh Connect must still be served, no panic, invalid message => task ends with InvalidFrame and pending operations resolve".into();
